@@ -84,7 +84,11 @@ fn parse_an_b(input: &str) -> Result<FunctionalPosition, NthChildError> {
       Num(has_n) => match c {
         '+' | '-' => return Err(NthChildError::InvalidSyntax),
         '0'..='9' => {
-          num = num * 10 + (c as u8 - b'0') as i32;
+          // reject numbers that do not fit instead of overflowing
+          num = num
+            .checked_mul(10)
+            .and_then(|n| n.checked_add((c as u8 - b'0') as i32))
+            .ok_or(NthChildError::InvalidSyntax)?;
         }
         'n' | 'N' => {
           if has_n {
@@ -159,10 +163,12 @@ struct FunctionalPosition {
 impl FunctionalPosition {
   /// index is 0-based, but output is 1-based
   fn is_matched(&self, index: usize) -> bool {
-    let index = (index + 1) as i32; // Convert 0-based index to 1-based
-    let FunctionalPosition { step_size, offset } = self;
-    if *step_size == 0 {
-      index == *offset
+    // use i64 so that extreme step_size/offset cannot overflow
+    let index = index as i64 + 1; // Convert 0-based index to 1-based
+    let step_size = self.step_size as i64;
+    let offset = self.offset as i64;
+    if step_size == 0 {
+      index == offset
     } else {
       let n = index - offset;
       n / step_size >= 0 && n % step_size == 0
